@@ -3,7 +3,7 @@ import ipaddress
 import socket
 
 import core
-from coqterm import B, C, N, Rec
+from coqterm import B, C, L, N, Rec
 
 
 def classify(host):
@@ -31,7 +31,7 @@ class P(core.Prop):
     quick_n = 2000
     thorough_n = 50000
     design_ref = '5/C06'
-    rule = ('targets: hostnames of length 0,1,63,64,254,255,256 and random, ASCII and non-ASCII; IPv4/IPv6 '
+    rule = ('method-selection replies: 0500 whole or split (75%), other methods / versions / incomplete (25%: no request may follow); targets: hostnames of length 0,1,63,64,254,255,256 and random, ASCII and non-ASCII; IPv4/IPv6 '
             'literals from boundary and random bytes in canonical and expanded spellings; ports from '
             '{0,1,255,256,1234,65535,65536,random}; 3 request types; method reply whole or byte by byte. '
             'non-trivial = non-empty target and a request was written or a refusal was required; '
@@ -71,10 +71,13 @@ class P(core.Prop):
         else:
             o = C('OWrote', B(bytes.fromhex(obs['wrote'])))
         return Rec(c_ty=ty, c_t=Rec(t_text=B(case['host'].encode('utf-8')), t_cls=cls),
-                   c_port=N(case['port']), c_obs=o, c_greet=B(bytes.fromhex(obs['greet'])))
+                   c_port=N(case['port']), c_obs=o, c_greet=B(bytes.fromhex(obs['greet'])),
+                   c_method=L(B(bytes.fromhex(c)) for c in case['chunks']))
 
     def kind(self, case, obs):
-        return '%s/%s/%s' % (case['ty'], classify(case['host'])[0], 'refused' if obs['exc'] else 'sent')
+        sel = ''.join(case['chunks']).startswith('0500')
+        return '%s/%s/%s%s' % (case['ty'], classify(case['host'])[0], 'refused' if obs['exc'] else 'sent',
+                               '' if sel else '/not-selected')
 
     def nontrivial(self, case, obs):
         return len(case['host']) > 0
@@ -121,7 +124,9 @@ class P(core.Prop):
             if ty == 'RESOLVE_PTR' and kind == 'host' and (rng.random() < 0.8 or inet_aton_accepts(host)):
                 continue
             port = rng.choice([0, 1, 255, 256, 1234, 65535, 65535, 65536, rng.randrange(65536), rng.randrange(65536)])
-            chunks = rng.choice([['0500'], ['05', '00']])
+            chunks = rng.choice([['0500'], ['0500'], ['0500'], ['05', '00'], ['05', '00'], ['0500'],
+                                 rng.choice([['0502'], ['05', '02'], ['05ff'], ['0400'], ['05'], ['0501'], ['0002'],
+                                             ['05', 'ff'], ['0600'], []])])
             out.append({'ty': ty, 'host': host, 'port': port, 'chunks': chunks})
         return out
 
